@@ -4,9 +4,16 @@ import re
 CLOSURE_RE = re.compile(r'\{closure@[^}]*\}')
 
 
+_MODPATH = re.compile(r'\b(?:std|core|alloc|hashbrown|petgraph|indexmap|engine|crate)::(?:[a-z_0-9]+::)*(?=[A-Z])')
+
+
 def norm(callee):
     s = callee.replace("'_, ", '').replace("'_ ", '').replace("'_", '')
     s = re.sub(r"'[a-z]\w*,? ?", '', s)
+    # rustc prints a type with its module path when the short name would be ambiguous in the crate (which a change
+    # to the source can cause): `std::collections::HashMap::<..>` and `HashMap::<..>` are the same callee
+    s = _MODPATH.sub('', s)
+    s = re.sub(r'\b(core|alloc)::(str|slice|num|bool|panicking|fmt|mem|cmp|iter|option|result)\b', r'std::\2', s)
     return s
 
 
@@ -42,7 +49,7 @@ SIMPLE = [
     (r'RefCell::<.*>::borrow$', 'M.ref_identity'),
     (r'<Cow<str> as Deref>::deref$', 'M.cow_deref'),
     (r'<Cow<str> as From<&String>>::from$', 'M.cow_from_ref'),
-    (r'<(str|String) as ToString>::to_string$', 'M.str_to_string'),
+    (r'<&?&?(str|String) as ToString>::to_string$', 'M.str_to_string'),
     (r'must_use::<.*>$', 'M.identity'),
     (r'<.* as Into<.*>>::into$', 'M.identity'),
     # ---- string equality (decision points when a value is symbolic)
@@ -51,6 +58,10 @@ SIMPLE = [
     (r'<usize as PartialEq>::eq$', 'M.usize_eq'),
     # ---- iterators
     (r'<.* as IntoIterator>::into_iter$', None),   # handled below (Vec by value vs iterator identity)
+    (r'<(std::ops::)?Range<usize> as Iterator>::next$', 'M.range_next'),
+    (r'<(std::ops::)?RangeInclusive<usize> as Iterator>::next$', 'M.range_inclusive_next'),
+    (r'<Rev<(std::ops::)?Range<usize>> as Iterator>::next$', 'M.range_rev_next'),
+    (r'<(std::ops::)?Range<usize> as Iterator>::rev$', 'M.range_rev'),
     (r'<.* as Iterator>::next$', 'M.it_next'),
     (r'<.* as Iterator>::enumerate$', 'M.it_enumerate'),
     (r'<.* as Iterator>::rev$', 'M.it_rev'),
@@ -58,7 +69,7 @@ SIMPLE = [
     (r'<.* as Iterator>::collect::<HashSet<.*>>$', 'M.collect_hashset'),
     (r'<.* as Iterator>::collect::<HashMap<.*>>$', 'M.collect_hashmap'),
     (r'<.* as Iterator>::count$', 'M.it_count'),
-    (r'core::slice::<impl \[.*\]>::iter(_mut)?$', 'M.slice_iter'),
+    (r'std::slice::<impl \[.*\]>::iter(_mut)?$', 'M.slice_iter'),
     (r'<std::ops::Range<usize> as Iterator>::next$', 'M.range_next'),
     # ---- Vec / VecDeque
     (r'Vec::<.*>::new$', 'M.vec_new'),
@@ -87,18 +98,20 @@ SIMPLE = [
     (r'HashSet::<.*>::iter$', 'M.hashset_iter'),
     (r'HashSet::<.*>::intersection$', 'M.hashset_intersection'),
     # ---- str
-    (r'core::str::<impl str>::contains::<&str>$', 'M.str_contains'),
-    (r'core::str::<impl str>::ends_with::<&String>$', 'M.str_ends_with'),
-    (r'core::str::<impl str>::is_empty$', 'M.str_is_empty'),
-    (r'core::str::<impl str>::split::<&str>$', 'M.str_split'),
-    (r'core::str::<impl str>::split_once::<&str>$', 'M.str_split_once'),
+    (r'std::str::<impl str>::contains::<&str>$', 'M.str_contains'),
+    (r'std::str::<impl str>::ends_with::<&String>$', 'M.str_ends_with'),
+    (r'std::str::<impl str>::is_empty$', 'M.str_is_empty'),
+    (r'std::str::<impl str>::split::<&str>$', 'M.str_split'),
+    (r'std::str::<impl str>::split_once::<&str>$', 'M.str_split_once'),
     (r'String::push_str$', 'M.string_push_str'),
     (r'String::new$', 'M.string_new'),
     # ---- fmt / log / panic
-    (r'core::fmt::rt::Argument::<>::new_display::<.*>$', 'M.fmt_display'),
-    (r'core::fmt::rt::Argument::<>::new_debug::<.*>$', 'M.fmt_debug'),
-    (r'core::fmt::rt::Argument::new_display::<.*>$', 'M.fmt_display'),
-    (r'core::fmt::rt::Argument::new_debug::<.*>$', 'M.fmt_debug'),
+    (r'std::fmt::rt::Argument::<>::new_display::<.*>$', 'M.fmt_display'),
+    (r'Argument::(<>::)?new_display::<.*>$', 'M.fmt_display'),
+    (r'Argument::(<>::)?new_debug::<.*>$', 'M.fmt_debug'),
+    (r'std::fmt::rt::Argument::<>::new_debug::<.*>$', 'M.fmt_debug'),
+    (r'std::fmt::rt::Argument::new_display::<.*>$', 'M.fmt_display'),
+    (r'std::fmt::rt::Argument::new_debug::<.*>$', 'M.fmt_debug'),
     (r'Arguments::(<>::)?new::<\d+, \d+>$', 'M.fmt_args_new'),
     (r'Arguments::(<>::)?from_str$', 'M.fmt_args_from_str'),
     (r'std::fmt::format$', 'M.fmt_format'),
@@ -108,9 +121,9 @@ SIMPLE = [
     (r'log::__private_api::log.*$', 'M.log_private_api_log'),
     (r'std::rt::begin_panic::<&str>$', 'M.begin_panic'),
     (r'panic$', 'M.panic_str'),
-    (r'core::panicking::panic$', 'M.panic_str'),
+    (r'std::panicking::panic$', 'M.panic_str'),
     (r'panic_fmt$', 'M.panic_fmt'),
-    (r'core::panicking::panic_fmt$', 'M.panic_fmt'),
+    (r'std::panicking::panic_fmt$', 'M.panic_fmt'),
     # ---- petgraph
     (r'GraphMap::<usize, EdgeInfo, Directed>::new$', 'M.graph_new'),
     (r'GraphMap::<usize, EdgeInfo, Directed>::add_node$', 'M.graph_add_node'),
@@ -121,6 +134,170 @@ SIMPLE = [
     (r'GraphMap::<usize, EdgeInfo, Directed>::all_edges$', 'M.graph_all_edges'),
     (r'GraphMap::<usize, EdgeInfo, Directed>::edge_weight(_mut)?$', 'M.graph_edge_weight'),
     (r'toposort::<&GraphMap<usize, EdgeInfo, Directed>>$', 'M.graph_toposort'),
+
+    # ======== models2: API beyond what the current source uses
+    (r'<.* as Iterator>::sum::<usize>$', 'M.it_sum'),
+    (r'<.* as Iterator>::max$', 'M.it_max'),
+    (r'<.* as Iterator>::min$', 'M.it_min'),
+    (r'<.* as Iterator>::last$', 'M.it_last'),
+    (r'<.* as Iterator>::nth$', 'M.it_nth'),
+    (r'<.* as Iterator>::chain::<.*>$', 'M.it_chain'),
+    (r'<.* as Iterator>::zip::<.*>$', 'M.it_zip'),
+    (r'<.* as Iterator>::skip$', 'M.it_skip'),
+    (r'<.* as Iterator>::take$', 'M.it_take'),
+    (r'<.* as Iterator>::(cloned|copied)::<.*>$', 'M.it_cloned'),
+    (r'<.* as Iterator>::peekable$', 'M.it_peekable'),
+    (r'Peekable::<.*>::peek$', 'M.peekable_peek'),
+    (r'RangeInclusive::<usize>::new$', 'M.range_inclusive_new'),
+    (r'<(std::ops::)?RangeInclusive<usize> as Iterator>::next$', 'M.range_inclusive_next'),
+    (r'<(std::ops::)?Range<usize> as Iterator>::rev$', 'M.range_rev'),
+    (r'<Rev<(std::ops::)?Range<usize>> as Iterator>::next$', 'M.range_rev_next'),
+    (r'std::slice::<impl \[.*\]>::contains$', 'M.slice_contains'),
+    (r'std::slice::<impl \[.*\]>::first$', 'M.slice_first'),
+    (r'std::slice::<impl \[.*\]>::last$', 'M.slice_last'),
+    (r'std::slice::<impl \[.*\]>::get(_mut)?::<usize>$', 'M.slice_get'),
+    (r'std::slice::<impl \[.*\]>::reverse$', 'M.slice_reverse'),
+    (r'std::slice::<impl \[.*\]>::swap$', 'M.slice_swap'),
+    (r'std::slice::<impl \[.*\]>::sort(_unstable)?$', 'M.slice_sort_any'),
+    (r'std::slice::<impl \[.*\]>::len$', 'M.slice_len'),
+    (r'std::slice::<impl \[.*\]>::is_empty$', 'M.slice_is_empty'),
+    (r'std::slice::<impl \[.*\]>::join::<&str>$', 'M.slice_join_any'),
+    (r'std::slice::<impl \[.*\]>::concat::<.*>$', 'M.slice_concat'),
+    (r'Vec::<.*>::pop$', 'M.vec_pop'),
+    (r'Vec::<.*>::insert$', 'M.vec_insert'),
+    (r'Vec::<.*>::remove$', 'M.vec_remove'),
+    (r'Vec::<.*>::swap_remove$', 'M.vec_swap_remove'),
+    (r'<Vec<.*> as Extend<.*>>::extend::<.*>$', 'M.vec_extend'),
+    (r'Vec::<.*>::extend_from_slice$', 'M.vec_extend_from_slice'),
+    (r'Vec::<.*>::clear$', 'M.vec_clear'),
+    (r'VecDeque::<.*>::clear$', 'M.vec_clear'),
+    (r'VecDeque::<.*>::len$', 'M.vec_len'),
+    (r'VecDeque::<.*>::pop_back$', 'M.vec_pop'),
+    (r'Vec::<.*>::truncate$', 'M.vec_truncate'),
+    (r'Vec::<.*>::with_capacity$', 'M.vec_with_capacity'),
+    (r'Vec::<.*>::capacity$', 'M.vec_capacity'),
+    (r'Vec::<.*>::reserve$', 'M.vec_reserve'),
+    (r'Vec::<.*>::dedup$', 'M.vec_dedup'),
+    (r'Vec::<.*>::drain::<RangeFull>$', 'M.vec_drain_full'),
+    (r'<Vec<.*> as Index<RangeFull>>::index$', 'M.vec_index_full'),
+    (r'<String as Index<RangeFull>>::index$', 'M.vec_index_full'),
+    (r'HashMap::<.*>::get_mut::<.*>$', 'M.hashmap_get_mut'),
+    (r'HashMap::<.*>::len$', 'M.hashmap_len'),
+    (r'HashMap::<.*>::is_empty$', 'M.hashmap_is_empty'),
+    (r'HashMap::<.*>::values(_mut)?$', 'M.hashmap_values'),
+    (r'HashMap::<.*>::iter(_mut)?$', 'M.hashmap_iter'),
+    (r'HashMap::<.*>::clear$', 'M.hashmap_clear'),
+    (r'<HashMap<.*> as Extend<.*>>::extend::<.*>$', 'M.hashmap_extend'),
+    (r'HashMap::<.*>::get_key_value::<.*>$', 'M.hashmap_get_key_value'),
+    (r'HashMap::<.*>::entry$', 'M.hashmap_entry'),
+    (r'Entry::<String, String>::or_default$', 'M.entry_or_default_string'),
+    (r'Entry::<String, usize>::or_default$', 'M.entry_or_default_usize'),
+    (r'Entry::<.*>::or_insert$', 'M.entry_or_insert'),
+    (r'HashSet::<.*>::len$', 'M.hashset_len'),
+    (r'HashSet::<.*>::is_empty$', 'M.hashset_is_empty'),
+    (r'HashSet::<.*>::clear$', 'M.hashset_clear'),
+    (r'<HashSet<.*> as Extend<.*>>::extend::<.*>$', 'M.hashset_extend'),
+    (r'HashSet::<.*>::union$', 'M.hashset_union'),
+    (r'HashSet::<.*>::difference$', 'M.hashset_difference'),
+    (r'HashSet::<.*>::is_subset$', 'M.hashset_is_subset'),
+    (r'HashSet::<.*>::is_superset$', 'M.hashset_is_superset'),
+    (r'HashSet::<.*>::is_disjoint$', 'M.hashset_is_disjoint'),
+    (r'HashSet::<.*>::drain$', 'M.hashset_drain'),
+    (r'Option::<.*>::or$', 'M.opt_or'),
+    (r'Option::<.*>::zip::<.*>$', 'M.opt_zip'),
+    (r'Option::<.*>::unwrap_or$', 'M.opt_unwrap_or'),
+    (r'Option::<(usize|u32|u64)>::unwrap_or_default$', 'M.opt_unwrap_or_default_usize'),
+    (r'Option::<String>::unwrap_or_default$', 'M.opt_unwrap_or_default_string'),
+    (r'Option::<bool>::unwrap_or_default$', 'M.opt_unwrap_or_default_bool'),
+    (r'Option::<.*>::ok_or::<.*>$', 'M.opt_ok_or'),
+    (r'Option::<.*>::as_deref(_mut)?$', 'M.opt_as_deref'),
+    (r'Option::<.*>::as_mut$', 'M.opt_as_ref'),
+    (r'Option::<&(mut )?.*>::copied$', 'M.opt_copied'),
+    (r'Option::<.*>::take$', 'M.opt_take'),
+    (r'Option::<.*>::replace$', 'M.opt_replace'),
+    (r'Option::<.*>::insert$', 'M.opt_insert'),
+    (r'Option::<.*>::get_or_insert$', 'M.opt_get_or_insert'),
+    (r'<Option<.*> as PartialEq>::eq$', 'M.opt_eq'),
+    (r'<Option<.*> as PartialEq>::ne$', 'M.opt_ne'),
+    (r'Result::<.*>::is_ok$', 'M.res_is_ok'),
+    (r'Result::<.*>::is_err$', 'M.res_is_err'),
+    (r'Result::<.*>::as_ref$', 'M.res_as_ref'),
+    (r'Result::<.*>::ok$', 'M.res_ok'),
+    (r'Result::<.*>::err$', 'M.res_err'),
+    (r'Result::<.*>::unwrap_or$', 'M.res_unwrap_or'),
+    (r'Result::<usize, .*>::unwrap_or_default$', 'M.res_unwrap_or_default_usize'),
+    (r'std::str::<impl str>::len$', 'M.str_len'),
+    (r'String::len$', 'M.str_len'),
+    (r'String::is_empty$', 'M.str_is_empty'),
+    (r'String::as_str$', 'M.string_as_str'),
+    (r'String::push$', 'M.string_push_char'),
+    (r'String::clear$', 'M.string_clear'),
+    (r'std::str::<impl str>::starts_with::<&(str|String)>$', 'M.str_starts_with'),
+    (r'std::str::<impl str>::ends_with::<&str>$', 'M.str_ends_with2'),
+    (r'std::str::<impl str>::contains::<&String>$', 'M.str_contains'),
+    (r'std::str::<impl str>::find::<&(str|String)>$', 'M.str_find'),
+    (r'std::str::<impl str>::strip_prefix::<&(str|String)>$', 'M.str_strip_prefix'),
+    (r'std::str::<impl str>::strip_suffix::<&(str|String)>$', 'M.str_strip_suffix'),
+    (r'std::str::<impl str>::rsplit_once::<&str>$', 'M.str_rsplit_once'),
+    (r'std::str::<impl str>::trim$', 'M.str_trim'),
+    (r'std::str::<impl str>::trim_start_matches::<&str>$', 'M.str_trim_start_matches'),
+    (r'std::str::<impl str>::trim_end_matches::<&str>$', 'M.str_trim_end_matches'),
+    (r'std::str::<impl str>::replace::<&str>$', 'M.str_replace'),
+    (r'std::str::<impl str>::to_lowercase$', 'M.str_to_lowercase'),
+    (r'std::str::<impl str>::to_uppercase$', 'M.str_to_uppercase'),
+    (r'std::str::<impl str>::split::<char>$', 'M.str_split_char'),
+    (r'std::str::<impl str>::rsplit::<&str>$', 'M.str_rsplit'),
+    (r'std::str::<impl str>::splitn::<&str>$', 'M.str_splitn'),
+    (r'std::str::<impl str>::lines$', 'M.str_lines'),
+    (r'std::str::<impl str>::chars$', 'M.str_chars'),
+    (r'std::str::<impl str>::bytes$', 'M.str_bytes'),
+    (r'<str as ToOwned>::to_owned$', 'M.str_to_owned'),
+    (r'<String as From<&(str|String)>>::from$', 'M.str_to_owned'),
+    (r'<String as Add<&str>>::add$', 'M.string_add'),
+    (r'<String as AsRef<str>>::as_ref$', 'M.string_as_str'),
+    (r'<String as Borrow<str>>::borrow$', 'M.string_as_str'),
+    (r'<(str|String|&str) as Ord>::cmp$', 'M.str_cmp'),
+    (r'<&?(str|String) as PartialOrd(<.*>)?>::lt$', 'M.str_lt'),
+    (r'<&?(str|String) as PartialOrd(<.*>)?>::le$', 'M.str_le'),
+    (r'<&?(str|String) as PartialOrd(<.*>)?>::gt$', 'M.str_gt'),
+    (r'<&?(str|String) as PartialOrd(<.*>)?>::ge$', 'M.str_ge'),
+    (r'<(String|&str|str) as PartialEq<(String|&str|str|&String)>>::eq$', 'M.s_eq'),
+    (r'<(String|&str|str) as PartialEq<(String|&str|str|&String)>>::ne$', 'M.s_ne'),
+    (r'std::num::<impl usize>::saturating_sub$', 'M.usize_saturating_sub'),
+    (r'std::num::<impl usize>::saturating_add$', 'M.usize_saturating_add'),
+    (r'std::num::<impl usize>::checked_add$', 'M.usize_checked_add'),
+    (r'std::num::<impl usize>::checked_sub$', 'M.usize_checked_sub'),
+    (r'std::num::<impl usize>::wrapping_add$', 'M.usize_wrapping_add'),
+    (r'std::num::<impl usize>::wrapping_sub$', 'M.usize_wrapping_sub'),
+    (r'std::num::<impl usize>::pow$', 'M.usize_pow'),
+    (r'std::num::<impl usize>::abs_diff$', 'M.usize_abs_diff'),
+    (r'<(usize|u32|u64) as Ord>::max$', 'M.ord_max'),
+    (r'<(usize|u32|u64) as Ord>::min$', 'M.ord_min'),
+    (r'<(usize|u32|u64) as Ord>::cmp$', 'M.usize_cmp'),
+    (r'std::cmp::max::<.*>$', 'M.ord_max'),
+    (r'std::cmp::min::<.*>$', 'M.ord_min'),
+    (r'<(usize|u32) as PartialEq>::ne$', 'M.usize_ne'),
+    (r'<&usize as Add<usize>>::add$', 'M.add_ref_usize'),
+    (r'<usize as Add<&usize>>::add$', 'M.add_ref_usize'),
+    (r'<usize as AddAssign<&usize>>::add_assign$', 'M.add_assign_ref'),
+    (r'std::mem::replace::<.*>$', 'M.mem_replace'),
+    (r'std::mem::swap::<.*>$', 'M.mem_swap'),
+    (r'std::mem::take::<Vec<.*>>$', 'M.mem_take_vec'),
+    (r'std::mem::take::<VecDeque<.*>>$', 'M.mem_take_vec'),
+    (r'std::mem::take::<String>$', 'M.mem_take_string'),
+    (r'std::mem::take::<HashMap<.*>>$', 'M.mem_take_hashmap'),
+    (r'std::mem::take::<HashSet<.*>>$', 'M.mem_take_hashset'),
+    (r'std::mem::take::<Option<.*>>$', 'M.mem_take_option'),
+    (r'std::bool::<impl bool>::then_some::<.*>$', 'M.bool_then_some'),
+    (r'Box::<[^{}]*>::new$', 'M.box_new'),
+    (r'GraphMap::<usize, EdgeInfo, Directed>::edges_directed$', 'M.graph_edges_directed'),
+    (r'GraphMap::<usize, EdgeInfo, Directed>::edges$', 'M.graph_edges'),
+    (r'GraphMap::<usize, EdgeInfo, Directed>::neighbors$', 'M.graph_neighbors'),
+    (r'GraphMap::<usize, EdgeInfo, Directed>::contains_edge$', 'M.graph_contains_edge'),
+    (r'GraphMap::<usize, EdgeInfo, Directed>::contains_node$', 'M.graph_contains_node'),
+    (r'GraphMap::<usize, EdgeInfo, Directed>::node_count$', 'M.graph_node_count'),
+    (r'GraphMap::<usize, EdgeInfo, Directed>::edge_count$', 'M.graph_edge_count'),
+    (r'GraphMap::<usize, EdgeInfo, Directed>::remove_edge$', 'M.graph_remove_edge'),
 ]
 SIMPLE = [(re.compile(p), m) for p, m in SIMPLE]
 
@@ -128,12 +305,41 @@ SIMPLE = [(re.compile(p), m) for p, m in SIMPLE]
 def lookup(callee, gen):
     s = norm(callee)
     # ---- closure-carrying adaptors
-    m = re.match(r'<.* as Iterator>::(map|filter|filter_map|position)::<', s)
+    m = re.match(r'<.* as Iterator>::(map|filter|filter_map|position|any|all|find|find_map|fold|for_each|take_while|skip_while|'
+                 r'flat_map|max_by_key|min_by_key)::<', s)
     if m:
         c = _closure(gen, s)
         if c is None:
             return None
         return 'M.it_%s(%s, %s)' % (m.group(1), c[0], c[1])
+    m = re.match(r'Option::<.*>::(map|and_then|filter|or_else|is_some_and|is_none_or|unwrap_or_else|map_or)::<', s)
+    if m and CLOSURE_RE.search(s):
+        c = _closure(gen, s)
+        if c is None:
+            return None
+        return 'M.opt_%s(%s, %s)' % (m.group(1), c[0], c[1])
+    m = re.match(r'Result::<.*>::(map|map_err|and_then|unwrap_or_else)::<', s)
+    if m and CLOSURE_RE.search(s):
+        c = _closure(gen, s)
+        if c is None:
+            return None
+        return 'M.res_%s(%s, %s)' % (m.group(1), c[0], c[1])
+    m = re.match(r'(HashMap|HashSet)::<.*>::retain::<', s)
+    if m:
+        c = _closure(gen, s)
+        if c is None:
+            return None
+        return 'M.%s_retain(%s, %s)' % (m.group(1).lower(), c[0], c[1])
+    if re.match(r'Entry::<.*>::or_insert_with::<', s):
+        c = _closure(gen, s)
+        if c is None:
+            return None
+        return 'M.entry_or_insert_with(%s, %s)' % (c[0], c[1])
+    if re.match(r'std::bool::<impl bool>::then::<', s):
+        c = _closure(gen, s)
+        if c is None:
+            return None
+        return 'M.bool_then(%s, %s)' % (c[0], c[1])
     if re.match(r'Vec::<.*>::retain::<', s):
         c = _closure(gen, s)
         if c is None:
@@ -161,10 +367,25 @@ def lookup(callee, gen):
     # ---- into_iter: identity for iterators, by-value iteration for Vec
     m = re.match(r'<(.*) as IntoIterator>::into_iter$', s)
     if m:
-        if m.group(1).startswith('Vec<'):
+        t = m.group(1)
+        if t.startswith('Vec<'):
             return 'M.vec_into_iter'
+        if t.startswith(('&Vec<', '&mut Vec<', '&[', '&mut [')):
+            return 'M.slice_iter'
+        if t.startswith(('&HashSet<', '&mut HashSet<')):
+            return 'M.hashset_iter'
+        if t.startswith('HashSet<'):
+            return 'M.hashset_into_iter'
+        if t.startswith(('&HashMap<', '&mut HashMap<')):
+            return 'M.hashmap_iter'
+        if t.startswith('HashMap<'):
+            return 'M.hashmap_into_iter'
+        if t.startswith('Option<'):
+            return 'M.into_iter_any'
+        if t.startswith('['):
+            return 'M.array_into_iter'
         return 'M.identity'
-    m = re.match(r'core::panicking::assert_failed::<', s)
+    m = re.match(r'(std::panicking::)?assert_failed::<', s)
     if m:
         return 'M.assert_failed'
     for rx, mdl in SIMPLE:
